@@ -667,3 +667,52 @@ def array_capacity(n):
         if dt['k'] == 'array' and 'n' in dt:
             return dt['n']
     return None
+
+
+# --------------------------------------------------------------------------- abstract path evaluation
+def follow(fn, oracle, track=(), env=None, max_steps=5000):
+    """Walk the CFG from the entry, taking at every two-way branch the edge chosen by oracle(atom)->bool
+    (atom already normalised by polar()). Tracks assignments to the locals in `track` (values through
+    eval_int under the running environment). Returns (exit kind, returned value or None, env).
+    This is evaluation of the extracted decision structure over abstract atom valuations — no fix8 code runs."""
+    cfg = fn.cfg
+    env = dict(env or {})
+    v = cfg.entry
+    steps = 0
+    while True:
+        steps += 1
+        if steps > max_steps:
+            raise AnalysisBroken('abstract evaluation of %s does not terminate' % fn.q)
+        vx = cfg.V[v]
+        n = vx.node
+        if n is not None:
+            if n.k == 'DeclStmt':
+                for d, init in n.r.get('decls', []):
+                    if d in track and init >= 0:
+                        env[d] = eval_int(Node(fn, init), env)
+            elif n.k == 'BinaryOperator' and n.op == '=' and n.children[0].strip(casts=True).k == 'DeclRefExpr' and \
+                    n.children[0].strip(casts=True).declid in track:
+                env[n.children[0].strip(casts=True).declid] = eval_int(n.children[1], env)
+            elif n.k == 'ReturnStmt':
+                val = eval_int(n.children[0], env) if n.children else None
+                return 'return', val, env
+            elif n.k == 'CXXThrowExpr':
+                return 'throw', None, env
+        succ = cfg.succ[v]
+        if not succ:
+            return 'end', None, env
+        if len(succ) == 1:
+            v = succ[0][0]
+            continue
+        labelled = [(w, lab) for (w, lab) in succ if lab is not None and isinstance(lab[1], bool)]
+        if len(labelled) != 2:
+            raise AnalysisBroken('abstract evaluation: multi-way branch without boolean labels in %s' % fn.q)
+        cond = cfg.cond_node(labelled[0][1][0])
+        atom, pol = polar(cond, True)
+        known = eval_int(atom, env)
+        truth = bool(known) if known is not None else oracle(atom)
+        if truth is None:
+            raise AnalysisBroken('abstract evaluation: unclassified branch atom `%s` at %s' % (atom.text(), atom.loc))
+        want = truth if pol else (not truth)
+        nxt = [w for (w, lab) in labelled if lab[1] == want]
+        v = nxt[0]
